@@ -3,6 +3,7 @@ package main
 import (
 	"flag"
 	"fmt"
+	"os"
 	"sort"
 	"strings"
 	"time"
@@ -167,9 +168,67 @@ func init() {
 				fail("composite-hash", "after "+c.Op.K+": "+bad, nil)
 			}
 		}
+		// ---- the root stays protected over a restart, also when the root was replaced at run time (an
+		// edge <new node> -> "root", which is what an import at "root" sends)
+		if cls, what := rerootRestart(); what != "" {
+			if cls == "infra" {
+				res.Extra["reroot_experiment_not_run"] = what
+			} else {
+				res.fail(Failure{Finding: "C05:" + cls, What: what})
+			}
+		}
+		evals++
 		res.Evaluations = evals
 		res.Traces = len(cases)
 		res.DistinctNontrivial = len(cases)
 		return res.write(*out)
 	}
+}
+
+func rerootRestart() (string, string) {
+	dir, err := os.MkdirTemp("", "verif-reroot-")
+	if err != nil {
+		return "infra", err.Error()
+	}
+	defer os.RemoveAll(dir)
+	in, err := startInstance(instOpts{dir: dir, id: "reroot-old"})
+	if err != nil {
+		return "infra", err.Error()
+	}
+	nc, err := in.connect()
+	if err != nil {
+		in.stop(false)
+		return "infra", err.Error()
+	}
+	newRoot := "reroot-new"
+	err = client.SendEdgePoints(nc, newRoot, "root", data.Points{
+		{Type: data.PointTypeTombstone, Value: 0}, {Type: data.PointTypeNodeType, Text: data.NodeTypeDevice}}, true)
+	if err != nil {
+		nc.Close()
+		in.stop(false)
+		return "infra", "the store refuses a new root edge: " + err.Error()
+	}
+	rs, err := client.GetNodes(nc, "root", "all", "", false)
+	nc.Close()
+	in.stop(false)
+	if err != nil || len(rs) != 1 || rs[0].ID != newRoot {
+		return "infra", fmt.Sprintf("after the new root edge the instance reports root %v (%v)", rs, err)
+	}
+	in2, err := startInstance(instOpts{dir: dir, id: "reroot-old"})
+	if err != nil {
+		return "root-lost-over-restart", "after the root was replaced at run time the instance does not start on its store file any more: " + err.Error()
+	}
+	defer in2.stop(true)
+	if in2.root.ID != newRoot {
+		return "root-lost-over-restart", fmt.Sprintf("the root was replaced at run time by %q (acknowledged); after a restart the instance's root is %q again", newRoot, in2.root.ID)
+	}
+	nc2, err := in2.connect()
+	if err != nil {
+		return "infra", err.Error()
+	}
+	defer nc2.Close()
+	if err := client.SendEdgePoint(nc2, newRoot, "root", data.Point{Type: data.PointTypeTombstone, Value: 1}, true); err == nil {
+		return "root-lost-over-restart", "after a restart a tombstone aimed at the instance's root is accepted"
+	}
+	return "", ""
 }
